@@ -69,6 +69,7 @@ type Echo struct {
 	Placeholder string
 	Re          *regexp.Regexp
 	Default     string
+	Gen         func() string // instead of Re: a value the client computes when it sends (one that contains the time)
 }
 
 // Seed is one valid unauthenticated exchange with one listener.
@@ -83,7 +84,7 @@ type Seed struct {
 	Thorough  bool // only in the thorough tier
 	Cookie    bool // messages contain cookiePlaceholder, replaced per exchange
 	Open      bool // delivered to a worker of the open world (see workerKind)
-	Light     bool // quick tier: only the structure-level deviations (alternatives, header lines, fields, repeated and swapped messages), no byte-level ones
+	Light     bool // quick tier: only the structure-level deviations (alternatives, header lines, repeated and swapped messages), no byte-level and length-field ones
 	Dup       bool // also enumerate "message i sent twice in a row"
 	Streams   bool // the valid exchange ends in a state in which the server streams to the client until the client goes away
 	Echo      []Echo
@@ -412,7 +413,7 @@ func enumerate(s *Seed, alphabet []byte, opaqueStride int, quick bool, f func(Mu
 			}
 		}
 		for fi, fd := range msg.Fields {
-			if fd.Name == "opaque" {
+			if fd.Name == "opaque" || light {
 				continue
 			}
 			for _, rep := range fieldValues(msg, fd) {
